@@ -1,5 +1,6 @@
 import QuriVerif.Driver.C01
 import QuriVerif.Driver.C12
+import QuriVerif.Driver.C06
 namespace QV.Driver
 
 def dispatch (line : String) : String :=
@@ -14,6 +15,7 @@ def dispatch (line : String) : String :=
     | "c01approx" => c01approx args
     | "gatemat" => gatemat args
     | "c12fold" => c12fold args
+    | "c06conj" => c06conj args
     | _ => "bad-request"
   | [] => "bad-request"
 
